@@ -19,9 +19,36 @@ def _is_ext(v: Value, *names: str) -> bool:
     return v[0] == "call" and v[1][0] == "ext" and v[1][1] in names
 
 
+_PROGRAM: list = []
+_HELPER_OK: dict = {}
+
+
 def _req_path(v: Value, side: str) -> bool:
     if side == "wsgi":
-        return v[0] == "call" and v[1][0] == "attr" and v[1][2] == "get" and show(v[1][1]) == "environ" and v[2] and v[2][0] == ("const", "PATH_INFO")
+        if v[0] == "call" and v[1][0] == "attr" and v[1][2] == "get" and show(v[1][1]) == "environ" and v[2] and v[2][0] == ("const", "PATH_INFO"):
+            return True
+        # a helper that returns PATH_INFO as text: on every path either the value read from environ or that value re-decoded
+        # from the Latin-1 a WSGI server hands out to UTF-8 (what an ASGI server puts into scope['path'])
+        if v[0] == "call" and v[1][0] == "func" and len(v[2]) == 1 and show(v[2][0]) == "environ" and _PROGRAM:
+            fq = v[1][1]
+            if fq not in _HELPER_OK:
+                p = _PROGRAM[0]
+                hf = p.func(fq)
+                hp = hf.params[0] if hf.params else "environ"
+                raw = ("call", ("attr", ("param", hp), "get"), (("const", "PATH_INFO"), ("const", "")), ())
+                ok = True
+                paths, _c, _i = run_paths(p, hf, None, raises=lambda c, i, callee, node: ["UnicodeDecodeError", "UnicodeEncodeError"] if callee[0] == "attr" and callee[2] in ("decode", "encode") else [])
+                rets = [pa for pa in paths if pa.exit == "return"]
+                for pa in rets:
+                    r = pa.value
+                    plain = r[:4] == raw
+                    red = r[0] == "call" and r[1][0] == "attr" and r[1][2] == "decode" and r[2][:1] in ((("const", "utf-8"),), (("const", "utf8"),)) and r[1][1][0] == "call" and r[1][1][1][0] == "attr" \
+                        and r[1][1][1][2] == "encode" and r[1][1][2][:1] in ((("const", "latin-1"),), (("const", "latin1"),), (("const", "iso-8859-1"),)) and r[1][1][1][1][:4] == raw
+                    ok = ok and (plain or red)
+                ok = ok and bool(rets) and not any(pa.exit == "raise" for pa in paths)
+                _HELPER_OK[fq] = ok
+            return _HELPER_OK[fq]
+        return False
     return v[0] == "sub" and show(v[1]) == "scope" and v[2] == ("const", "path")
 
 
@@ -40,6 +67,8 @@ def _confined(v: Value, side: str) -> Optional[str]:
 
 
 def run(p: Program, rep: Report, tier: str) -> None:
+    _PROGRAM[:] = [p]
+    _HELPER_OK.clear()
     rep.explanation = (
         "R7.1 sanitiser dominance on every path of the four __call__s: each path expression that reaches a file-system "
         "sink (check_path_is_file -> os.stat, file_response -> FileResponse -> open) is ensure_absolute_path(<request path>) "
@@ -303,6 +332,18 @@ def run(p: Program, rep: Report, tier: str) -> None:
             rep.violation("R7.5", construct(base_eap, text=f"trailing slash restored only if {t}"), where(base_eap, n),
                           f"the sanitiser restores the trailing '/' only when `{t}`: for any other directory URL ending in '/' (e.g. /dir/) Pages does not append index.html, finds a directory and "
                           "redirects to the same URL plus '/' (/dir//) instead of serving the directory's index page")
+    # file names are looked up by the UTF-8 text of the request path on both interfaces
+    uses = [(f_, c_, ok_) for f_, c_, ok_ in wsgi_path_text_uses(p) if f_.module.name == "baize.wsgi.staticfiles"]
+    for f_, c_, ok_ in uses:
+        if ok_:
+            rep.ok("R7.7", f"{f_.fq}: the path joined to the directory is PATH_INFO re-decoded from Latin-1 to UTF-8")
+        else:
+            rep.violation("R7.7", construct(f_, text="PATH_INFO used as text without re-decoding"), where(f_, c_),
+                          f"{f_.fq} joins environ['PATH_INFO'] to the directory as it is: a WSGI server delivers the path bytes decoded as Latin-1, so a file whose name is not ASCII (café.txt) is "
+                          "looked up as 'cafÃ©.txt' and answered 404 although it is inside the directory (ASGI serves it)")
+    if not uses:
+        rep.undecide("R7.7", "no use of PATH_INFO found in baize.wsgi.staticfiles")
+    rep.require_instances("R7.7", 2)
     # the redirect target is computed from URL(scope=...) / URL(environ=...): both branches of that constructor must hand the
     # gateway's own root path + path to the builder (shared with C18/R18.1), otherwise a mounted Pages app redirects elsewhere
     from .c18 import gateway_url_branches
@@ -382,3 +423,33 @@ def _classify(pa: Path, returned: Value, DIR: Value) -> str:
     if seen_eq or seen_sep:
         return "unknown"
     return verdict if verdict != "none" else ("unknown" if rel_calls else "none")
+
+
+def wsgi_path_text_uses(p: Program):
+    """Every WSGI function that hands the request path to text-level code (route matching, prefix tests, joining with a
+    directory): (function, call node, re-decoded?).  A WSGI server delivers PATH_INFO as the path bytes decoded as Latin-1
+    (PEP 3333) while an ASGI server delivers scope['path'] decoded as UTF-8, so text-level use without re-decoding gives a
+    different result for every non-ASCII path."""
+    out = []
+    for f in p.all_functions():
+        if not f.module.name.startswith("baize.wsgi"):
+            continue
+        for c in calls_in(f, deep=True):
+            if not (isinstance(c.func, ast.Attribute) and c.func.attr in ("search", "ensure_absolute_path", "startswith", "matches") and isinstance(c.func.value, ast.Name) and c.func.value.id == "self"):
+                continue
+            if not c.args:
+                continue
+            a0 = c.args[0]
+            src = a0
+            if isinstance(a0, ast.Name):
+                defs = [n.value for n in ast.walk(f.node) if isinstance(n, ast.Assign) and any(isinstance(t, ast.Name) and t.id == a0.id for t in n.targets)]
+                src = defs[0] if defs else a0
+            txt = ast.unparse(src)
+            if "PATH_INFO" in txt:
+                out.append((f, c, False))
+            elif isinstance(src, ast.Call) and isinstance(p.resolve_call(f, src), FuncInfo):
+                hf = p.resolve_call(f, src)
+                ht = ast.unparse(hf.node)
+                if "PATH_INFO" in ht:
+                    out.append((f, c, ".encode(" in ht and ".decode(" in ht))
+    return out
